@@ -1,7 +1,7 @@
 SPECIFICATION Spec
 CONSTANTS
   Kinds <- KindsT
-  Alpha <- AlphaT
+  Alpha <- AlphaQ
   MaxMsg = 5
   Caps <- CapsQ
   Grows <- GrowsQ
